@@ -116,7 +116,7 @@ type placementAgg struct {
 	mu       sync.Mutex
 	bugs     map[string]*placementBug
 	states   map[uint64]struct{}
-	outcomes map[string]int64
+	outcomes map[[4]int]int64
 	calls    int64
 	granted  int64
 	reserved int64 // calls in which at least one reservation was needed before the decision
@@ -126,7 +126,7 @@ type placementAgg struct {
 type placementLocal struct {
 	bugs     map[string]*placementBug
 	states   map[uint64]struct{}
-	outcomes map[string]int64
+	outcomes map[[4]int]int64
 	calls    int64
 	granted  int64
 	reserved int64
@@ -134,7 +134,7 @@ type placementLocal struct {
 }
 
 func newLocal() *placementLocal {
-	return &placementLocal{bugs: map[string]*placementBug{}, states: map[uint64]struct{}{}, outcomes: map[string]int64{}}
+	return &placementLocal{bugs: map[string]*placementBug{}, states: map[uint64]struct{}{}, outcomes: map[[4]int]int64{}}
 }
 
 func (l *placementLocal) bug(sig string, ord int64, machs, reqs [][2]int, res exec.VerifC14SchedResult, why string) {
@@ -241,9 +241,8 @@ func checkPlacement(l *placementLocal, ord int64, machs, reqs [][2]int) {
 	res := exec.VerifC14Schedule(machs, reqs)
 	l.calls++
 	l.states[canon(machs, reqs)] = struct{}{}
-	cls := classOf(len(machs), len(reqs))
 	bug := func(oracle, why string) {
-		l.bug("C14/a/"+oracle+"/"+cls, ord, machs, reqs, res, why)
+		l.bug("C14/a/"+oracle+"/"+classOf(len(machs), len(reqs)), ord, machs, reqs, res, why)
 	}
 	if res.Panic != "" {
 		bug("schedule-panics", res.Panic)
@@ -303,19 +302,16 @@ func checkPlacement(l *placementLocal, ord int64, machs, reqs [][2]int) {
 		return
 	}
 	granted := res.Req >= 0
-	outcome := "none"
+	outcome := [4]int{}
 	if granted {
 		r, m := reqs[res.Req], machs[res.Mach]
-		outcome = fmt.Sprintf("grant prio=%d procs=%d on free=%d", r[0], r[1], free(m))
+		outcome = [4]int{1, r[0], r[1], free(m)}
 		l.granted++
 		if free(m) == 0 {
 			bug("machine-without-free-procs", fmt.Sprintf("machine %v has no free procs", m))
 		}
 		if r[1] > free(m) {
 			bug("request-does-not-fit", fmt.Sprintf("request %v needs %d procs, machine %v has %d free", r, r[1], m, free(m)))
-		}
-		if res.SchedQ != nil && (res.Req >= len(reqs)) {
-			bug("malformed-result", "request id out of range")
 		}
 	}
 	l.outcomes[outcome]++
@@ -399,7 +395,7 @@ func checkPlacement(l *placementLocal, ord int64, machs, reqs [][2]int) {
 func runPlacement(r *ev.Run, b bounds) (cov map[string]interface{}, states, transitions int64) {
 	mseqs := sequences(machineKinds(b.MaxCap), b.MaxMachines)
 	rseqs := sequences(requestKinds(b.Priorities, b.MaxProcs), b.MaxRequests)
-	agg := &placementAgg{bugs: map[string]*placementBug{}, states: map[uint64]struct{}{}, outcomes: map[string]int64{}}
+	agg := &placementAgg{bugs: map[string]*placementBug{}, states: map[uint64]struct{}{}, outcomes: map[[4]int]int64{}}
 	ev.Parallel(len(mseqs), 16, func(mi int) {
 		l := newLocal()
 		for ri, rs := range rseqs {
@@ -430,17 +426,29 @@ func runPlacement(r *ev.Run, b bounds) (cov map[string]interface{}, states, tran
 		}
 	}
 	cov = map[string]interface{}{
-		"bounds":                              b,
-		"machine_push_sequences":              len(mseqs),
-		"request_push_sequences":              len(rseqs),
-		"schedule_calls":                      agg.calls,
-		"distinct_configurations":             len(agg.states),
-		"distinct_outcomes":                   len(agg.outcomes),
-		"outcomes":                            agg.outcomes,
-		"calls_granting":                      agg.granted,
-		"calls_where_first_request_reserved":  agg.reserved,
-		"calls_with_ties":                     agg.tied,
-		"oracles":                             "reference FFD-with-reservation (whether; which up to ties = equal priority+procs requests, equal-free-procs machines); fit; free>0; queue elements/values preserved; index fields; heap invariant (before and after); statement-level: first-in-order request granted if it fits anywhere, no machine given to a request while an earlier one fits on it, a fitting request waits only behind reservations",
+		"bounds":                             b,
+		"machine_push_sequences":             len(mseqs),
+		"request_push_sequences":             len(rseqs),
+		"schedule_calls":                     agg.calls,
+		"distinct_configurations":            len(agg.states),
+		"distinct_outcomes":                  len(agg.outcomes),
+		"outcomes":                           outcomeNames(agg.outcomes),
+		"calls_granting":                     agg.granted,
+		"calls_where_first_request_reserved": agg.reserved,
+		"calls_with_ties":                    agg.tied,
+		"oracles":                            "reference FFD-with-reservation (whether; which up to ties = equal priority+procs requests, equal-free-procs machines); fit; free>0; queue elements/values preserved; index fields; heap invariant (before and after); statement-level: first-in-order request granted if it fits anywhere, no machine given to a request while an earlier one fits on it, a fitting request waits only behind reservations",
 	}
 	return cov, int64(len(agg.states)), agg.calls
+}
+
+func outcomeNames(m map[[4]int]int64) map[string]int64 {
+	out := map[string]int64{}
+	for k, v := range m {
+		if k[0] == 0 {
+			out["nothing schedulable"] = v
+		} else {
+			out[fmt.Sprintf("grant prio=%d procs=%d on machine with %d free", k[1], k[2], k[3])] = v
+		}
+	}
+	return out
 }
